@@ -546,3 +546,12 @@ def cycle_with_singletons(rng):
     if rng.random() < .3:
         rng.shuffle(D)
     return D
+
+
+def tied_first(rng):
+    """cycle_plus preceded by a ranking in which every element is tied: the internal ids are then assigned in the
+    iteration order of one big set, which a projection of that bucket on a component need not preserve"""
+    D = cycle_plus(rng)
+    U = grids.universe(D)
+    big = [sorted(U)] if rng.random() < .6 else [sorted(U[:len(U) // 2 + 1]), sorted(U[len(U) // 2 + 1:])]
+    return [[b for b in big if b]] + D
